@@ -15,4 +15,5 @@ CONSTANTS
   FixDropBound = TRUE
   FixDeriveGuards = TRUE
   FixLateTrack = TRUE
+  FixDeleteOnAccept = FALSE
 INVARIANTS Pred TypeOK
